@@ -4,62 +4,109 @@
 (*   Phi1M(A)  = sum_k A^k / (k+1)!      (so that dr_exp(a) = Phi1M(-ad a))     *)
 (*   DPhi1M(A,E), DExpM(A,E) = directional (Frechet) derivatives, obtained      *)
 (*   from f([[A,E],[0,A]]) = [[f(A), Df(A)[E]], [0, f(A)]].                     *)
-(* Method: scale A by 2^-s so that the infinity norm is <= 1/2, sum NTerms      *)
-(* Taylor terms (remainder < 2^-200), undo the scaling by squaring /           *)
-(* the doubling rule Phi1(2X) = Phi1(X)(Exp(X)+I)/2.  Every product is rounded *)
-(* to a multiple of 2^-Prec.  For the operands used by the trace specs         *)
-(* (norm <= 2^13, s <= 15) the accumulated absolute error is below 2^-150,     *)
-(* far under every tolerance it is compared with (>= 1e-15).                   *)
+(* Method: scale A by 2^-s so that the infinity norm is <= 1/2, sum NT Taylor   *)
+(* terms, undo the scaling by squaring / the doubling rule                      *)
+(* Phi1(2X) = Phi1(X)(Exp(X)+I)/2.  Every product is rounded to a multiple of   *)
+(* 2^-P and a rigorous bound of the accumulated error is carried along;         *)
+(* precision and term count are raised until the bound is below 2^-128.         *)
 EXTENDS RLin
 
-Prec == 320
-NTerms == 45
+\* ---- certified evaluation -------------------------------------------------
+\* ExpAt / ExpPhiAt evaluate at a given working precision P (bits after the binary point) and
+\* number of Taylor terms NT and return, next to the matrices, rigorous bounds (infinity norm)
+\* on their absolute errors, tracked through every rounding, the truncation of the series and
+\* every squaring / doubling step.  ExpCert / ExpPhiCert raise P and NT until the bounds are
+\* below 2^-TargetBits.  RFun.class (Java) overrides ExpAt and ExpPhiAt with the same algorithm
+\* (bit-identical results, checked by tools/selftest_rfun.sh); the definitions below are the meaning.
+
+TargetBits == 128
 
 ScaleOf(A) ==
   LET nrm == NormInf(A)
   IN IF RSign(nrm) = 0 THEN 0
      ELSE LET e == RLog2Floor(nrm) + 2 IN IF e < 0 THEN 0 ELSE e
 
+RECURSIVE RFact(_)
+RFact(n) == IF n <= 1 THEN R1 ELSE RMul(RFromInt(n), RFact(n - 1))
+\* error of the Taylor stage for || B || <= 1/2 :  NT roundings of n 2^-(P+1) each, propagated through
+\* factors of norm <= 1/2, plus the truncated tail  sum_{k > NT} (1/2)^k / k!  <=  2 (1/2)^(NT+1) / (NT+1)!
+\* (1/(NT+1)! is bounded by a power of two so that every error bound stays a small dyadic number)
+TaylorErr(n, P, NT) ==
+  RAdd(RMul(RFromInt(NT * n), RPow2(-P)), RPow2(-NT - RLog2Floor(RFact(NT + 1))))
+\* error bounds are rounded UP to a multiple of 2^-(P+200) after every update (keeps them short)
+Up(x, P) == RAdd(RRound(x, P + 200), RPow2(-(P + 200)))
+
 \* term = B^(k-1)/(k-1)!  (exp)   ;  pterm = B^(k-1)/k!  (phi1)
-RECURSIVE ExpPhiTaylor(_, _, _, _, _, _)
-ExpPhiTaylor(B, term, esum, pterm, psum, k) ==
-  IF k > NTerms THEN <<esum, psum>>
-  ELSE LET t == MRound(MScale(RFrac(1, k), MMul(term, B)), Prec)
-           p == MRound(MScale(RFrac(1, k + 1), MMul(pterm, B)), Prec)
-       IN ExpPhiTaylor(B, t, MAdd(esum, t), p, MAdd(psum, p), k + 1)
+RECURSIVE ExpPhiTaylor(_, _, _, _, _, _, _, _)
+ExpPhiTaylor(B, term, esum, pterm, psum, k, P, NT) ==
+  IF k > NT THEN <<esum, psum>>
+  ELSE LET t == MRound(MScale(RFrac(1, k), MMul(term, B)), P)
+           p == MRound(MScale(RFrac(1, k + 1), MMul(pterm, B)), P)
+       IN ExpPhiTaylor(B, t, MAdd(esum, t), p, MAdd(psum, p), k + 1, P, NT)
 
-RECURSIVE ExpOnlyTaylor(_, _, _, _)
-ExpOnlyTaylor(B, term, esum, k) ==
-  IF k > NTerms THEN esum
-  ELSE LET t == MRound(MScale(RFrac(1, k), MMul(term, B)), Prec)
-       IN ExpOnlyTaylor(B, t, MAdd(esum, t), k + 1)
+RECURSIVE ExpOnlyTaylor(_, _, _, _, _, _)
+ExpOnlyTaylor(B, term, esum, k, P, NT) ==
+  IF k > NT THEN esum
+  ELSE LET t == MRound(MScale(RFrac(1, k), MMul(term, B)), P)
+       IN ExpOnlyTaylor(B, t, MAdd(esum, t), k + 1, P, NT)
 
-RECURSIVE SquareN(_, _)
-SquareN(E, s) == IF s = 0 THEN E ELSE SquareN(MRound(MMul(E, E), Prec), s - 1)
-
-\* <<E, P>> for X  ->  <<E, P>> for 2X
-RECURSIVE DoubleN(_, _, _)
-DoubleN(E, P, s) ==
-  IF s = 0 THEN <<E, P>>
+\* E -> E^2 ; error  2 |E| e + 3 e^2 + n 2^-(P+1)
+RECURSIVE SquareN(_, _, _, _)
+SquareN(E, eE, s, P) ==
+  IF s = 0 THEN <<E, eE>>
   ELSE LET n == Rows(E)
-           P2 == MRound(MScale(RHalf, MMul(P, MAdd(E, MId(n)))), Prec)
-           E2 == MRound(MMul(E, E), Prec)
-       IN DoubleN(E2, P2, s - 1)
+           e2 == Up(RAdd(RAdd(RMul(RMul(R2, NormInf(E)), eE), RMul(RFromInt(3), RSq(eE))),
+                         RMul(RFromInt(n), RPow2(-(P + 1)))), P)
+       IN SquareN(MRound(MMul(E, E), P), e2, s - 1, P)
 
-ExpM(A) ==
+\* <<E, Ph>> for X  ->  <<E^2, Ph (E + I) / 2>> for 2X
+RECURSIVE DoubleN(_, _, _, _, _, _)
+DoubleN(E, Ph, eE, eP, s, P) ==
+  IF s = 0 THEN <<E, Ph, eE, eP>>
+  ELSE LET n == Rows(E)
+           nE == NormInf(E)  nP == NormInf(Ph)
+           rnd == RMul(RFromInt(n), RPow2(-(P + 1)))
+           eE2 == Up(RAdd(RAdd(RMul(RMul(R2, nE), eE), RMul(RFromInt(3), RSq(eE))), rnd), P)
+           eP2 == Up(RAdd(RMul(RHalf, RAdd(RAdd(RMul(RAdd(nE, R1), eP), RMul(nP, eE)), RMul(R2, RMul(eE, eP)))), rnd), P)
+           P2 == MRound(MScale(RHalf, MMul(Ph, MAdd(E, MId(n)))), P)
+           E2 == MRound(MMul(E, E), P)
+       IN DoubleN(E2, P2, eE2, eP2, s - 1, P)
+
+\* <<E, errE>>
+ExpAt(A, P, NT) ==
   LET n == Rows(A)
       s == ScaleOf(A)
       B == MScale(RPow2(-s), A)
-  IN SquareN(ExpOnlyTaylor(B, MId(n), MId(n), 1), s)
+  IN SquareN(ExpOnlyTaylor(B, MId(n), MId(n), 1, P, NT), TaylorErr(n, P, NT), s, P)
 
-ExpPhiM(A) ==
+\* <<E, Phi1, errE, errPhi1>>
+ExpPhiAt(A, P, NT) ==
   LET n == Rows(A)
       s == ScaleOf(A)
       B == MScale(RPow2(-s), A)
-      tp == ExpPhiTaylor(B, MId(n), MId(n), MId(n), MId(n), 1)
-  IN DoubleN(tp[1], tp[2], s)
+      tp == ExpPhiTaylor(B, MId(n), MId(n), MId(n), MId(n), 1, P, NT)
+      e0 == TaylorErr(n, P, NT)
+  IN DoubleN(tp[1], tp[2], e0, e0, s, P)
 
-Phi1M(A) == ExpPhiM(A)[2]
+StartPrec(A) == 160 + 12 * ScaleOf(A)
+RECURSIVE ExpRetry(_, _, _), ExpPhiRetry(_, _, _)
+ExpRetry(A, P, NT) ==
+  LET r == ExpAt(A, P, NT)
+  IN IF RLeq(r[2], RPow2(-TargetBits)) \/ P > 20000 THEN r ELSE ExpRetry(A, 2 * P, NT + 16)
+ExpPhiRetry(A, P, NT) ==
+  LET r == ExpPhiAt(A, P, NT)
+  IN IF (RLeq(r[3], RPow2(-TargetBits)) /\ RLeq(r[4], RPow2(-TargetBits))) \/ P > 20000 THEN r
+     ELSE ExpPhiRetry(A, 2 * P, NT + 16)
+ExpCert(A) == ExpRetry(A, StartPrec(A), 40)
+ExpPhiCert(A) == ExpPhiRetry(A, StartPrec(A), 40)
+
+\* the matrix functions used by the rest of the specification (absolute error <= 2^-128 per entry)
+ExpM(A) == ExpCert(A)[1]
+ExpPhiM(A) == LET r == ExpPhiCert(A) IN <<r[1], r[2]>>
+Phi1M(A) == ExpPhiCert(A)[2]
+\* the certified error bounds themselves (reported in the evidence)
+ExpMErr(A) == ExpCert(A)[2]
+Phi1MErr(A) == ExpPhiCert(A)[4]
 
 \* directional derivatives via the block upper-triangular identity
 DPhi1M(A, E) ==
